@@ -417,7 +417,10 @@ def set_default_doc(param, emit_default_doc=True):
                     else "{doc}.".format(doc=_param["doc"])
                 ),
                 default=(
-                    quote(_param["default"])
+                    # An empty string has no other spelling (`quote` leaves it empty)
+                    '""'
+                    if isinstance(_param["default"], str) and not _param["default"]
+                    else quote(_param["default"])
                     if (
                         needs_quoting(_param.get("typ"))
                         and (
